@@ -26,7 +26,10 @@ ExtBehaviours == {"honest", "otherRoot", "otherInput", "otherAggrTime", "otherPu
 (* deprecatedAlg: the calendar database itself (so also every published root hash) was built with a left sibling whose hash algorithm is   *)
 (* deprecated at the publication time: the reply is honest in every respect, only its chain cannot carry trust any more                  *)
 (* sigAlg: the same for the signature's own calendar chain (SHA-1 after 2016-07-01: deprecated, not obsolete -- internally still consistent) *)
-CertStates == {"valid", "startsAtAggr", "endsAtAggr", "notYetValid", "expired", "unknownId", "badSignature"}
+(* ecValid / ecJunkSignature: the listed certificate carries an EC key (for which the crypto library's verification has three outcomes: *)
+(* verified, not verified, could not be carried out); the record's signature is a proper ECDSA signature / is not even well-formed      *)
+CertStates == {"valid", "startsAtAggr", "endsAtAggr", "notYetValid", "expired", "unknownId", "badSignature", "ecValid", "ecJunkSignature"}
+SigBad(e) == e.cert \in {"badSignature", "ecJunkSignature"}
 PfStates == [atSig : {"match", "otherHash", "absent"}, later : {"true", "otherHash", "none"}]
 Envs == [internal : {"ok", "broken"}, cal : BOOLEAN, sigAlg : {"current", "deprecated"}, rec : Recs, up : {"none", "given"}, upTime : UpTimes, upHash : {"true", "other"},
          pf : {"none", "given"}, pfsrc : {"user", "downloadTrusted", "downloadUntrusted"}, pfc : PfStates, extAllowed : BOOLEAN, ext : ExtBehaviours, cert : CertStates]
@@ -82,7 +85,7 @@ Leaf(n, e) ==
     [] n = "CalendarAuthRecPresence" -> If(e.rec = "auth", OKr, NA2)
     [] n = "CertificateExistence" -> If(e.rec # "auth", NA2, If(~PfAvail(e), NAerr, If(e.cert = "unknownId", NA2, OKr)))
     [] n = "CertificateValidity" -> If(e.cert \in {"notYetValid", "expired"}, FAIL("KEY-03"), OKr)
-    [] n = "CalAuthRecSignature" -> If(e.cert = "badSignature", FAIL("KEY-02"), OKr)
+    [] n = "CalAuthRecSignature" -> If(SigBad(e), FAIL("KEY-02"), OKr)
     [] n = "PubFileContainsSignaturePublication" -> If(~PfAvail(e), NAerr, If(e.pfc.atSig # "absent", OKr, NA0))
     [] n = "PubFileSignaturePublicationVerification" -> If(~PfAvail(e), NAerr, If(e.pfc.atSig = "match", OKr, FAIL("PUB-05")))
     [] n = "PubFileDoesNotContainSignaturePublication" -> If(~PfAvail(e), NAerr, If(e.pfc.atSig = "absent", OKr, NA0))
@@ -158,7 +161,7 @@ BoundUser(e) == /\ e.up = "given" /\ e.upHash = "true"
 BoundPf(e) == /\ PfAvail(e)
               /\ \/ e.rec = "pub" /\ e.pfc.atSig = "match"
                  \/ NearestHash(e) = "true" /\ e.extAllowed /\ ExtBound(e)
-BoundKey(e) == e.rec = "auth" /\ PfAvail(e) /\ e.cert \in {"valid", "startsAtAggr", "endsAtAggr"}
+BoundKey(e) == e.rec = "auth" /\ PfAvail(e) /\ e.cert \in {"valid", "startsAtAggr", "endsAtAggr", "ecValid"}
 BoundCal(e) == FetchOk(e) /\ InputOk(e) /\ AggrOk(e) /\ (e.rec = "pub" => RootTrue(e)) /\ (e.cal /\ e.rec # "pub" => RLinksOk(e))
 Bound(p, e) == CASE p = "CAL" -> BoundCal(e) [] p = "KEY" -> BoundKey(e) [] p = "PUBFILE" -> BoundPf(e) [] p = "USERPUB" -> BoundUser(e)
                  [] p = "GENERAL" -> IF e.up = "given" THEN BoundUser(e) ELSE (BoundPf(e) \/ BoundKey(e))
@@ -166,7 +169,7 @@ Bound(p, e) == CASE p = "CAL" -> BoundCal(e) [] p = "KEY" -> BoundKey(e) [] p = 
 Contradiction(p, e) == \/ e.internal = "broken"
                        \/ p \in {"USERPUB", "GENERAL"} /\ e.up = "given" /\ (e.upHash = "other" \/ (FetchOk(e) /\ ~(RootTrue(e) /\ InputOk(e) /\ AggrOk(e) /\ PubTimeOk(e))))
                        \/ p \in {"PUBFILE", "GENERAL"} /\ PfAvail(e) /\ (e.pfc.atSig = "otherHash" \/ e.pfc.later = "otherHash" \/ (FetchOk(e) /\ ~(RootTrue(e) /\ InputOk(e) /\ AggrOk(e) /\ PubTimeOk(e))))
-                       \/ p \in {"KEY", "GENERAL"} /\ e.rec = "auth" /\ PfAvail(e) /\ e.cert \in {"notYetValid", "expired", "badSignature"}
+                       \/ p \in {"KEY", "GENERAL"} /\ e.rec = "auth" /\ PfAvail(e) /\ e.cert \in {"notYetValid", "expired", "badSignature", "ecJunkSignature"}
                        \/ p = "CAL" /\ FetchOk(e) /\ ~(RootTrue(e) /\ InputOk(e) /\ AggrOk(e) /\ RLinksOk(e))
 (* the FAIL codes the property admits in environment e: one per condition that e contradicts (when several are contradicted, which one is *)
 (* reported depends on the order of the rules, which the property does not fix)                                                          *)
@@ -174,7 +177,7 @@ ExtCodes(e, hashTrue) == (IF FetchOk(e) /\ ~(hashTrue /\ RootTrue(e)) THEN {"PUB
                          \cup (IF FetchOk(e) /\ ~(PubTimeOk(e) /\ AggrOk(e)) THEN {"PUB-02"} ELSE {}) \cup (IF FetchOk(e) /\ ~InputOk(e) THEN {"PUB-03"} ELSE {})
 UserCodes(e) == IF e.up # "given" THEN {} ELSE (IF e.rec = "pub" /\ e.upTime = "atSigPub" /\ e.upHash = "other" THEN {"PUB-04"} ELSE {}) \cup ExtCodes(e, e.upHash = "true")
 PfCodes(e) == IF ~PfAvail(e) THEN {} ELSE (IF e.rec = "pub" /\ e.pfc.atSig = "otherHash" THEN {"PUB-05"} ELSE {}) \cup ExtCodes(e, NearestHash(e) = "true")
-KeyCodes(e) == IF e.rec = "auth" /\ PfAvail(e) THEN (IF e.cert \in {"notYetValid", "expired"} THEN {"KEY-03"} ELSE {}) \cup (IF e.cert = "badSignature" THEN {"KEY-02"} ELSE {}) ELSE {}
+KeyCodes(e) == IF e.rec = "auth" /\ PfAvail(e) THEN (IF e.cert \in {"notYetValid", "expired"} THEN {"KEY-03"} ELSE {}) \cup (IF SigBad(e) THEN {"KEY-02"} ELSE {}) ELSE {}
 CalCodes(e) == IF ~FetchOk(e) THEN {} ELSE (IF ~RootTrue(e) THEN {"CAL-01"} ELSE {}) \cup (IF ~RLinksOk(e) THEN {"CAL-04"} ELSE {})
                                              \cup (IF ~InputOk(e) THEN {"CAL-02"} ELSE {}) \cup (IF ~AggrOk(e) THEN {"CAL-03"} ELSE {})
 AdmittedFailCodes(p, e) == (IF e.internal = "broken" THEN {"INT"} ELSE {})
